@@ -24,7 +24,7 @@ SPEC = {
     "shards": {"quick": 16, "thorough": 16},
     "min_counts": {"quick": {"evaluations": 2000, "oracle_evals": 20000, "yields_checked": 5000,
                              "fresh_defaults_checked": 1000, "identity_checked": 5000, "operands_with_saved_position": 300, "pairs_with_different_defaults": 200,
-                             "nary_with_uformat_operands": 300, "uformat_leaders": 50},
+                             "nary_with_uformat_operands": 300, "uformat_leaders": 50, "nary_interior_cases": 300},
                    "thorough": {"evaluations": 20000, "oracle_evals": 200000}},
     "assumptions": [
         "ordered/unique fibers only; integer or tuple coordinates",
@@ -107,6 +107,11 @@ def _random_case(rng):
     if r < 0.80:
         k = rng.randint(2, 4)
         ext = rng.randint(1, 8)
+        if rng.random() < 0.25:
+            # operands that are upper-level fibers of two-rank tensors: payloads are sub-fibers, absent sides empty fibers
+            return {"kind": "nary", "op": rng.choice(["intersection", "union", "union", "leader-follower"]), "interior": True,
+                    "specs": [gen.rand_tree_spec(rng, [ext, 3], rng.choice([0.3, 0.6, 0.9]), 0.2, default) for _ in range(k)],
+                    "default": default, "setting": "tensor", "saved": None, "ufmt": None, "shape": ext}
         return {"kind": "nary", "op": rng.choice(["intersection", "union", "leader-follower", "leader-follower"]),
                 "specs": [gen.rand_leaf_spec(rng, ext, rng.choice([0.3, 0.6, 0.9]), 0.15, default) for _ in range(k)],
                 "default": default, "setting": rng.choice(["free", "tensor"]),
@@ -334,7 +339,12 @@ def _run_nary(case, mon):
     d = case["default"]
     op = case["op"]
     fm = ["U" if u else "C" for u in case["ufmt"]] if case.get("ufmt") else ["C"] * len(case["specs"])
-    if case.get("ufmt"):
+    interior = bool(case.get("interior"))
+    if interior:
+        owners = [gen.tensor_from_spec(s, ["K", "N"], default=d) for s in case["specs"]]
+        fibers = [t.getRoot() for t in owners]
+        mon.count("nary_interior_cases")
+    elif case.get("ufmt"):
         owners = [gen.tensor_from_spec(s, ["K"], shape=[case["shape"]], default=d, fmts=[f]) for s, f in zip(case["specs"], fm)]
         fibers = [t.getRoot() for t in owners]
         mon.count("nary_with_uformat_operands")
@@ -403,9 +413,10 @@ def _run_nary(case, mon):
                               f"{what} at {c}: payload {i} is not operand {i}'s stored object")
                 elif op == "leader-follower" and c in dict(zip(fibers[i].coords, fibers[i].payloads)):
                     # follower holds an explicit default at c: its stored object or a default, value must be default
-                    mon.check(unbox(v[i]) == d, f"{op}:follower-default", f"{what} at {c}: follower {i} payload {v[i]!r}")
+                    okd = (isinstance(v[i], Fiber) and content(v[i], d) == {}) if interior else (unbox(v[i]) == d)
+                    mon.check(okd, f"{op}:follower-default", f"{what} at {c}: follower {i} payload {v[i]!r}")
                 else:
-                    fresh.check(v[i], False)
+                    fresh.check(v[i], interior)
     after = [snap(x) for x in watched]
     mon.check(before == after, f"{op}:operand-modified", f"{what} changed an operand or its tensor")
     if all(pres) and got:
